@@ -30,6 +30,7 @@ def run(ctx):
     nviol = srvfam.report_verdicts(ctx, verdicts, PROPS, bpath, c2, "TestReplay")
     traces = rep.get("cases_total", 0)
     samples = list(rep.get("samples", []))[:2]
+    selftest = srvfam.binding_selftest(ctx, tpath, epath, c2)
     # 3. code -> spec: random sessions beyond TLC's bounds (many outstanding requests, pool overflow)
     runs = [dict(nreq=8, nt=8, cases=150 if q else 1500), dict(nreq=16, nt=16, cases=60 if q else 600)]
     if not q:
@@ -42,7 +43,8 @@ def run(ctx):
         rc = {"cases": rr["cases"], "nreq": rr["nreq"], "kinds": ["Attach", "Stat", "Stat", "Clunk", "Walk", "Flush"],
               "shared": False, "close": False, "extra": True, "latep": 15, "sendp": 35 if rr["nreq"] < 40 else 70, "probe": False}
         tag = "rand%d" % i
-        rrep, tpath, epath, bpath = srvfam.random_run(ctx, cr, rc, tag, 100000 * (i + 1))
+        # every second run goes through the SrvReqProcessOps override path (same specification)
+        rrep, tpath, epath, bpath = srvfam.random_run(ctx, cr, rc, tag, 100000 * (i + 1), processops=(i % 2 == 1))
         rj, tl = srvfam.run_trace_validation(ctx, tpath, cr, name="Srv9PTrace:" + tag)
         vd, el = srvfam.run_monitor(ctx, epath, name="Mon9P:" + tag)
         nviol += srvfam.report_verdicts(ctx, vd, PROPS, bpath, cr, "TestRandom")
@@ -67,6 +69,7 @@ def run(ctx):
         "replay_drift_cases": int(rep.get("stats", {}).get("drift_cases", 0) or 0) + rdrift,
         "max_outstanding_requests": maxout,
         "exhaustive": not q,
+        "binding_selftest": selftest,
     }
     return ctx.finish("model_checking", cov_d, assumptions=[
         "client reuses a tag only after its reply or the Rflush of a flush naming it (flush(5)); Tversion only at session start",
